@@ -129,12 +129,17 @@ def run(ctx):
     fails, evals, samples = [], 0, []
     n = ctx.scale(45, 700)
     dist = {"locations": {}, "orders": 0, "spellings": {}}
+    other_fs = []
     # rename detection where several vanished files have the content of one new file (a deleted file and a renamed one
     # with equal bytes): which of them becomes the previous path must not depend on where the tree is mounted
     dup = {"root": "root", "tree": {"a.txt": "same", "b.txt": "same", "c/d.txt": "same", "k.txt": "k"},
            "ops": [{"op": "create", "at": "", "h": ["md5"], "now": "2026-03-01 12:00:01"}, {"op": "rm", "path": "a.txt"}, {"op": "rm", "path": "c/d.txt"}, {"op": "mv", "src": "b.txt", "dst": "renamed.txt"},
                    {"op": "create", "at": "", "h": ["md5"], "now": "2026-03-01 12:00:02", "dr": True}, {"op": "create", "at": "", "h": ["sha1"], "now": "2026-03-01 12:00:03", "dr": True}], "c13_equal_only": True}
-    fixed = [dup] * 6
+    # ... and where one vanished file has the content of several new ones (renamed, and a copy added)
+    cop = {"root": "root", "tree": {"a.txt": "same", "k.txt": "k"},
+           "ops": [{"op": "create", "at": "", "h": ["md5"], "now": "2026-03-01 12:00:01"}, {"op": "mv", "src": "a.txt", "dst": "renamed.txt"}, {"op": "write", "path": "c/copy of a.txt", "data": "same"},
+                   {"op": "write", "path": "another copy.txt", "data": "same"}, {"op": "create", "at": "", "h": ["md5"], "now": "2026-03-01 12:00:02", "dr": True}], "c13_equal_only": True}
+    fixed = [dup] * 6 + [cop] * 6
     for i in range(n + len(fixed)):
         sc = fixed[i] if i < len(fixed) else scenario_for(ctx.seed * 1000003 + i)
         base = rt.mktemp("c13_")
@@ -144,7 +149,18 @@ def run(ctx):
             spell = rnd.choice([None, "slash", "relative", "cwd", "dot", "updir", "symlink"])
             a, ea, ra = run_world(sc, os.path.join(base, "w1"), loc1, None)
             encl = rnd.choice([["*.txt"], ["*.mov", "*.bin"], ["s", "A", "*.txt"], ["*"]]) if rnd.random() < 0.3 else None
-            b, eb, rb = run_world(sc, os.path.join(base, "w2"), loc2, None, spell, encl)
+            # every fourth case puts the second world on another kind of file system (disk instead of memory): what
+            # the file system reports about a DIRECTORY (its size, its link count) is no part of the tree
+            base2 = base
+            if i % 4 == 1:
+                import tempfile
+                try:
+                    base2 = tempfile.mkdtemp(prefix="mhlv_c13_", dir="/var/tmp")
+                    other_fs.append(base2)
+                    dist["other_file_system"] = dist.get("other_file_system", 0) + 1
+                except OSError:
+                    base2 = base
+            b, eb, rb = run_world(sc, os.path.join(base2, "w2"), loc2, None, spell, encl)
             dist["enclosing_volume"] = dist.get("enclosing_volume", 0) + (1 if encl else 0)
             c, ec, rc = run_world(sc, os.path.join(base, "w3"), loc1, order)
             evals += 3
@@ -172,6 +188,8 @@ def run(ctx):
                 samples.append({"tree": sc["tree"], "ops": sc["ops"], "loc1": loc1, "loc2": loc2, "order_seed": order, "spell": spell})
         finally:
             shutil.rmtree(base, ignore_errors=True)
+            while other_fs:
+                shutil.rmtree(other_fs.pop(), ignore_errors=True)
     for w in ("D5a", "D5b", "D19"):
         for msg in witnesses.ALL[w]():
             fails.append({"what": f"regression of fixed defect {w}: {msg}", "replay": {"witness": w}})
